@@ -51,6 +51,8 @@ inductive Op where
   | burst (n : Nat)
   | rd (r : Nat) (lo : Bool) (partial_ : Bool)
   | rdw (r : Nat) (lo : Bool) (i : Nat) (add : Bool)
+  | rdwr (r : Nat) (lo : Bool) (i : Nat) (add : Bool)
+  | rdo (r : Nat) (lo : Bool) (i : Nat) (add : Bool)
   | qc (i : Nat)
   | qcw (i : Nat) (add : Bool)
   | run | runb | rune
@@ -67,6 +69,12 @@ def op : P Op := fun ts => do
   | "rdw" => do
     let (r, ts) ← nat ts; let (s, ts) ← tok ts; let (i, ts) ← nat ts; let (a, ts) ← tok ts
     pure (.rdw r (s = "l") i (a = "a"), ts)
+  | "rdwr" => do
+    let (r, ts) ← nat ts; let (s, ts) ← tok ts; let (i, ts) ← nat ts; let (a, ts) ← tok ts
+    pure (.rdwr r (s = "l") i (a = "a"), ts)
+  | "rdo" => do
+    let (r, ts) ← nat ts; let (s, ts) ← tok ts; let (i, ts) ← nat ts; let (a, ts) ← tok ts
+    pure (.rdo r (s = "l") i (a = "a"), ts)
   | "qc" => do let (i, ts) ← nat ts; pure (.qc i, ts)
   | "qcw" => do let (i, ts) ← nat ts; let (a, ts) ← tok ts; pure (.qcw i (a = "a"), ts)
   | "run" => pure (.run, ts)
@@ -143,12 +151,13 @@ structure D where
   s : St Nat
   store : List Nat                       -- universe tuples currently stored
   payload : List (Nat × List Nat)        -- iterator entry content per read key (set when stored)
-  payloadSrc : List (Nat × String)       -- who populated it: c | l
+  payloadSrc : List (Nat × String)       -- who populated it: c | l | o (stamped after a write and a run inside the datastore call)
   qpayload : List (Nat × Bool × Bool)    -- query entry content per question, populated by a qcw?
   seq : Nat := 0                         -- operation counter (1-based)
   lastWrite : List (Nat × Nat)           -- universe tuple → seq of its last write
   runStart : Nat := 0                    -- seq at which the latest *completed* run started
   pendingStart : Nat := 0                -- seq at which the run in flight started
+  held : Bool := false                   -- a run is being held (from the operations, not from the model)
   sawInvalidation : Bool := false
   checkedAfterRun : Nat := 0
 
@@ -185,11 +194,44 @@ structure Res where
 def lifeOf (tok : String) : Option Nat :=
   if tok.startsWith "s" then (tok.drop 1).toString.toNat? else none
 
-/-- the iterator read of one operation -/
-def doRead (c : Case) (d : D) (r : Nat) (lo partial_ : Bool) (mid : Option (Nat × Bool)) (impl : String) : Res :=
+/-- `DetermineInvalidationTime`: is a run triggered? -/
+def triggers (c : Case) (s : St Nat) : Bool :=
+  match s.cl with
+  | some e => if s.now < e.exp then decide (s.now - e.checked > c.ctrlTTL * tickUnits) else true
+  | none => true
+
+def doRun (c : Case) (d : D) : D × String :=
+  if d.held then (d, "R-") else
+  let start := 2 * d.seq + 1
+  let d := d.prim c .runRead
+  let before := d.s
+  let d := d.prim c (.runEnd 0 0 0)
+  let sum := runSummary c before d.s
+  ({ d with runStart := max d.runStart start, sawInvalidation := d.sawInvalidation || !sum.startsWith "RN" }, sum)
+
+/-- the property for one complete read, from the implementation's output and the replayed store only -/
+def readViolation (c : Case) (d : D) (r : Nat) (impl : String) : Option String :=
   let parts := impl.splitOn ":"
+  let iHit := parts.getD 0 "?"
   let iRes := parts.getD 1 "?"
+  let lw := lastWriteOf d (c.readMatch.getD r [])
+  let cur := expected c d.store r
+  if d.runStart > lw && iRes ≠ setStr cur then
+    let src := (lookupA d.payloadSrc r).getD "c"
+    let why :=
+      if c.jitter > 0 then "F6 TTL jitter: the iterator entry outlives the controller's window (now - iteratorCacheTTL), the change was skipped"
+      else if src = "l" && c.loTTL > c.iterTTL then "F6b the entry lives listObjectsIteratorCache.ttl but the controller skips changes older than checkIteratorCache.ttl"
+      else if src = "o" then "F6e the iterator is stamped (initializedAt / createdAt) after the datastore call returned; a write and a run inside that call are older than the stamp"
+      else "unexplained"
+    some s!"read key {r} {if iHit.startsWith "h" then "served" else "returned"} {iRes} {if iHit.startsWith "h" then "from the iterator cache" else "after a miss"}, the store holds {setStr cur}, although an invalidation run that started after the last write to it (op {lw / 2}) has completed (run started at op {d.runStart / 2}): {why}"
+  else none
+
+/-- the iterator read of one operation -/
+def doRead (c : Case) (d : D) (r : Nat) (lo partial_ : Bool) (mid : Option (Nat × Bool)) (withRun atOpen : Bool) (impl : String) : Res :=
+  let parts := impl.splitOn ":"
   let iSto := parts.getD 2 "?"
+  let viol := if partial_ || mid.isSome then none else readViolation c d r impl
+  let d := { d with checkedAfterRun := d.checkedAfterRun + (if d.runStart > 0 && !partial_ then 1 else 0) }
   let d := d.step c (.tick 1)
   let hit := iterHit c.depsOf d.s r
   -- an entry that is present, alive and invalid is deleted by findInCache
@@ -201,110 +243,88 @@ def doRead (c : Case) (d : D) (r : Nat) (lo partial_ : Bool) (mid : Option (Nat 
   if hit.isSome then
     let content := (lookupA d.payload r).getD []
     let mRes := if partial_ then "p" else setStr content
-    -- a write scheduled "during the read" never happens when the datastore is not read
-    let out := s!"{mHit}:{mRes}:n"
-    let diff := if impl = out then none else some out
-    -- property: served content vs current store
-    let lw := lastWriteOf d (c.readMatch.getD r [])
-    let mustBeFresh := d.runStart > lw
-    let cur := expected c d.store r
-    let d := { d with checkedAfterRun := d.checkedAfterRun + (if d.runStart > 0 then 1 else 0) }
-    let viol :=
-      if !partial_ && mustBeFresh && iRes ≠ setStr cur then
-        let src := (lookupA d.payloadSrc r).getD "c"
-        let why :=
-          if c.jitter > 0 then "F6 TTL jitter: the iterator entry outlives the controller's window (now - iteratorCacheTTL), the change was skipped"
-          else if src = "l" && c.loTTL > c.iterTTL then "F6b the entry lives listObjectsIteratorCache.ttl but the controller skips changes older than checkIteratorCache.ttl"
-          else "unexplained"
-        some s!"read key {r} served {iRes} from the iterator cache, the store holds {setStr cur}, although an invalidation run that started after the last write to it (op {lw}) has completed (run started at op {d.runStart}): {why}"
-      else none
-    -- served from the cache: a write scheduled "during the read" happens right after it
+    -- served from the cache: a write (and run) scheduled "during the read" happens right after it
     let d := match mid with
       | some (i, add) =>
         let d := d.prim c (.write 1 (c.tupleKeys.getD i []))
-        { d with store := applyWr d.store i add, lastWrite := insertA d.lastWrite i d.seq }
+        { d with store := applyWr d.store i add, lastWrite := insertA d.lastWrite i (2 * d.seq) }
       | none => d
+    let (d, sum) := if withRun then (let (d, sm) := doRun c d; (d, ":" ++ sm)) else (d, "")
+    let out := s!"{mHit}:{mRes}:n{sum}"
+    let diff := if impl = out then none else some out
     { d, diff, viol }
   else
     -- miss: the datastore is read now (snapshot), an optional write lands, then the flush
     let initNow := d.s.now
     let snapshot := expected c d.store r
-    let (d, wrote) := match mid with
+    let d := match mid with
       | some (i, add) =>
         let d := d.prim c (.write 1 (c.tupleKeys.getD i []))
-        ({ d with store := applyWr d.store i add, lastWrite := insertA d.lastWrite i d.seq }, true)
-      | none => (d, false)
-    let _ := wrote
+        { d with store := applyWr d.store i add, lastWrite := insertA d.lastWrite i (2 * d.seq) }
+      | none => d
+    let (d, sum) := if withRun then (let (d, sm) := doRun c d; (d, ":" ++ sm)) else (d, "")
+    -- `initializedAt` / `createdAt` is taken when the datastore call has returned
+    let initNow := if atOpen then (d.step c (.tick 1)).s.now else initNow
+    let d := d.step c (.tick 1)
     let d := d.step c (.tick 1)
     let age := d.s.now - initNow
     let decides := if c.v2 then popStoresV2 d.s r && !snapshot.isEmpty else popStoresV1 c.depsOf d.s r age
     let life := lifeOf iSto
     let mSto := if decides then (match life with | some l => s!"s{l}" | none => "s?") else "n"
     let mRes := if partial_ then "p" else setStr snapshot
-    let out := s!"{mHit}:{mRes}:{mSto}"
+    let out := s!"{mHit}:{mRes}:{mSto}{sum}"
     let diff := if impl = out then none else some out
     let d := match life with
       | some l => { (d.step c (.popIter r age l true)) with
-                      payload := insertA d.payload r snapshot, payloadSrc := insertA d.payloadSrc r (if lo then "l" else "c") }
+                      payload := insertA d.payload r snapshot, payloadSrc := insertA d.payloadSrc r (if atOpen then "o" else if lo then "l" else "c") }
       | none => d
-    { d, diff }
+    { d, diff, viol }
 
-/-- `DetermineInvalidationTime`: is a run triggered? -/
-def triggers (c : Case) (s : St Nat) : Bool :=
-  match s.cl with
-  | some e => if s.now < e.exp then decide (s.now - e.checked > c.ctrlTTL * tickUnits) else true
-  | none => true
-
-def doRun (c : Case) (d : D) : D × String :=
-  if d.s.pending.isSome then (d, "R-") else
-  let start := d.seq
-  let d := d.prim c .runRead
-  let before := d.s
-  let d := d.prim c (.runEnd 0 0 0)
-  let sum := runSummary c before d.s
-  ({ d with runStart := max d.runStart start, sawInvalidation := d.sawInvalidation || !sum.startsWith "RN" }, sum)
+def queryViolation (c : Case) (d : D) (i : Nat) (impl : String) : Option String :=
+  let parts := impl.splitOn ":"
+  let iHit := parts.getD 0 "?"
+  let iAns := parts.getD 1 "?"
+  let lw := lastWriteOf d [i]
+  let cur := d.store.contains i
+  if d.runStart > lw && iAns ≠ (if cur then "T" else "F") then
+    let byQcw := ((lookupA d.qpayload i).getD (false, false)).2
+    let why :=
+      if byQcw then "F6c the entry is stamped time.Now() when the evaluation ends; the write committed while it was in flight is older than the stamp"
+      else if c.jitter > 0 then "F6d TTL jitter: the query entry outlives the changelog entry, DetermineInvalidationTime returns the zero time"
+      else "unexplained"
+    some s!"question {i} answered {iAns} {if iHit = "h" then "from the query cache" else "after a miss"}, the store says {if cur then "T" else "F"}, although an invalidation run that started after the last write to it (op {lw / 2}) has completed (run started at op {d.runStart / 2}): {why}"
+  else none
 
 def doQuery (c : Case) (d : D) (i : Nat) (mid : Option Bool) (impl : String) : Res :=
   let parts := impl.splitOn ":"
-  let iAns := parts.getD 1 "?"
   let iSto := parts.getD 2 "?"
+  let viol := queryViolation c d i impl
+  let d := { d with checkedAfterRun := d.checkedAfterRun + (if d.runStart > 0 then 1 else 0) }
   let d := d.step c (.tick 1)
-  let trig := triggers c d.s && d.s.pending.isNone
+  let trig := triggers c d.s && !d.held
   let hit := queryHit d.s i
-  let (d, out, viol) :=
+  let (d, out) :=
     match hit with
     | some _ =>
-      let (ans, byQcw) := (lookupA d.qpayload i).getD (false, false)
-      let lw := lastWriteOf d [i]
-      let mustBeFresh := d.runStart > lw
-      let cur := d.store.contains i
-      let ansS := if ans then "T" else "F"
-      let viol :=
-        if mustBeFresh && iAns ≠ (if cur then "T" else "F") then
-          let why :=
-            if byQcw then "F6c the entry is stamped time.Now() when the evaluation ends; the write committed while it was in flight is older than the stamp"
-            else if c.jitter > 0 then "F6d TTL jitter: the query entry outlives the changelog entry, DetermineInvalidationTime returns the zero time"
-            else "unexplained"
-          some s!"question {i} answered {iAns} from the query cache, the store says {if cur then "T" else "F"}, although an invalidation run that started after the last write to it (op {lw}) has completed (run started at op {d.runStart}): {why}"
-        else none
+      let ans := ((lookupA d.qpayload i).getD (false, false)).1
       let d := match mid with
         | some add =>
           let d := d.prim c (.write 1 (c.tupleKeys.getD i []))
-          { d with store := applyWr d.store i add, lastWrite := insertA d.lastWrite i d.seq }
+          { d with store := applyWr d.store i add, lastWrite := insertA d.lastWrite i (2 * d.seq) }
         | none => d
-      (d, s!"h:{ansS}:n", viol)
+      (d, s!"h:{if ans then "T" else "F"}:n")
     | none =>
       let start := d.s.now
       let ans := d.store.contains i
       let d := match mid with
         | some add =>
           let d := d.prim c (.write 1 (c.tupleKeys.getD i []))
-          { d with store := applyWr d.store i add, lastWrite := insertA d.lastWrite i d.seq }
+          { d with store := applyWr d.store i add, lastWrite := insertA d.lastWrite i (2 * d.seq) }
         | none => d
       let d := d.step c (.tick 1)
       let life := (lifeOf iSto).getD 0
       let d := { (d.step c (.popQuery i (d.s.now - start) life)) with qpayload := insertA d.qpayload i (ans, mid.isSome) }
-      (d, s!"m:{if ans then "T" else "F"}:{iSto}", none)
+      (d, s!"m:{if ans then "T" else "F"}:{iSto}")
   let (d, out) :=
     if trig then
       let (d, sum) := doRun c d
@@ -318,23 +338,26 @@ def stepOp (c : Case) (d : D) (o : Op) (impl : String) : Res :=
   | .adv n => { d := d.step c (.tick (n * tickUnits)), diff := if impl = "a" then none else some "a" }
   | .wr i add =>
     let d := d.prim c (.write 1 (c.tupleKeys.getD i []))
-    { d := { d with store := applyWr d.store i add, lastWrite := insertA d.lastWrite i d.seq }, diff := if impl = "w" then none else some "w" }
+    { d := { d with store := applyWr d.store i add, lastWrite := insertA d.lastWrite i (2 * d.seq) }, diff := if impl = "w" then none else some "w" }
   | .burst n =>
     let d := (List.range n).foldl (fun d _ => d.prim c (.write 1 c.fillKeys)) d
     { d, diff := if impl = "w" then none else some "w" }
-  | .rd r lo p => doRead c d r lo p none impl
-  | .rdw r lo i add => doRead c d r lo false (some (i, add)) impl
+  | .rd r lo p => doRead c d r lo p none false false impl
+  | .rdw r lo i add => doRead c d r lo false (some (i, add)) false false impl
+  | .rdwr r lo i add => doRead c d r lo false (some (i, add)) true false impl
+  | .rdo r lo i add => doRead c d r lo false (some (i, add)) true true impl
   | .qc i => doQuery c d i none impl
   | .qcw i add => doQuery c d i (some add) impl
   | .run =>
     let (d, sum) := doRun c d
     { d, diff := if impl = sum then none else some sum }
   | .runb =>
-    if d.s.pending.isSome then { d, diff := if impl = "b!" then none else some "b!" } else
-    let d := { (d.prim c .runRead) with pendingStart := d.seq }
+    if d.held then { d, diff := if impl = "b!" then none else some "b!" } else
+    let d := { (d.prim c .runRead) with pendingStart := 2 * d.seq + 1, held := true }
     { d, diff := if impl = "b" then none else some "b" }
   | .rune =>
-    if d.s.pending.isNone then { d, diff := if impl = "R!" then none else some "R!" } else
+    if !d.held then { d, diff := if impl = "R!" then none else some "R!" } else
+    let d := { d with held := false }
     let before := (d.step c (.tick 1)).s
     let d := d.prim c (.runEnd 0 0 0)
     let sum := runSummary c before d.s
@@ -354,23 +377,24 @@ def step (cs impl : String) : String :=
   | some c =>
     let outs := fields impl
     if outs.length ≠ c.ops.length then s!"SKIP output has {outs.length} entries for {c.ops.length} operations" else
-    let rec go (d : D) (ops : List Op) (outs : List String) (k : Nat) (viol : Option String) : String :=
+    let rec go (d : D) (ops : List Op) (outs : List String) (k : Nat) (viol diff : Option String) : String :=
       match ops, outs with
       | o :: ops', out :: outs' =>
         let r := stepOp c d o out
-        match r.diff with
-        | some exp =>
-          -- the real-clock scripts are not compared event by event beyond the first difference
-          modelDiff s!"op#{k + 1}={exp} (implementation: {out})"
-        | none => go r.d ops' outs' (k + 1) (viol.orElse fun _ => r.viol)
+        -- after a difference the model state is no longer meaningful, but the property check only needs the
+        -- replayed store, the write positions and the run positions: keep going
+        let diff' := diff.orElse fun _ => r.diff.map (fun e => s!"op#{k + 1}={e} (implementation: {out})")
+        go r.d ops' outs' (k + 1) (viol.orElse fun _ => r.viol) diff'
       | _, _ =>
-        match viol with
-        | some v => specViol v
-        | none =>
+        match viol, diff with
+        | some v, none => specViol v
+        | some v, some df => specViol (v ++ " [the timeline model also disagrees: expected " ++ df ++ "]")
+        | none, some df => modelDiff df
+        | none, none =>
           let cls := (if c.real then "real-clock" else "aged-clock") ++ (if c.v2 then "-v2" else "-v1") ++
             (if d.sawInvalidation then "-invalidated" else "-noinvalidation")
           ok cls (d.sawInvalidation && d.checkedAfterRun > 0)
-    go (initState c) c.ops outs 0 none
+    go (initState c) c.ops outs 0 none none
 
 end OpenFGAVerif.DriverC11
 
